@@ -1399,6 +1399,9 @@ class C10(Prop):
                 wraps.append({"lines": ["mem 2 none 1", f"{kind} " + self._sigtok("jailbreak", lv, False) + " " + self._sigtok("hello", 1, False),
                                         "filter " + hexs("a JailBreak!"), "filter " + hexs("hello"), "export", f"{kind}", "stats"],
                               "note": "antibodies handed over as a one-shot generator / a tuple"})
+        for brx in BAD_RX:
+            wraps.append({"lines": ["mem 2 none 1", "learn " + self._sigtok(brx, 2, True), "filter " + hexs("hello"), "stats"],
+                          "note": "learn_threat with a regex that does not compile"})
         for kind in ("audit", "export", "stats"):
             wraps.append({"lines": ["mem 2 none 1 " + jbs, "learn " + self._sigtok("hello", 2, False), "filter " + hexs("a JailBreak!"),
                                     "filter " + hexs("fine"), f"mutret {kind}", "filter " + hexs("hello there"), "filter " + hexs("fine"),
@@ -1417,6 +1420,8 @@ class C10(Prop):
                         if any(o_.endswith(hexs("a JailBreak!")) or o_.endswith(hexs("jailbreak")) for o_ in ops):
                             reent.append({"lines": [cfg, f"hook {hk_}"] + list(ops) + ["stats"],
                                           "note": f"re-entrant on_threat hook ({hk_}), depth {k}"})
+        if tier == "quick":          # quick tier: every depth-1/2 history, every third of depth 3 (thorough: all)
+            reent = [c_ for i_, c_ in enumerate(reent) if not c_["note"].endswith("depth 3") or i_ % 3 == 0]
         edits = []
         ealpha = ["sigop append " + self._sigtok("hello", 2, False), "sigop insert0 " + self._sigtok("hello", 3, False), "sigop pop",
                   "sigop remove0", "sigop clear", "sigop assign " + self._sigtok("there", 2, False), "sigop assign",
@@ -1435,16 +1440,20 @@ class C10(Prop):
                     edits.append({"lines": ["inn 3 15 none " + self._sigtok("omega", 5, False)] + list(ops)
                                   + ["check " + hexs("oh, hello there omega"), "istats"],
                                   "note": f"the public list im.patterns edited directly, depth {k}"})
+        if tier == "quick":
+            edits = [c_ for i_, c_ in enumerate(edits) if not c_["note"].endswith("depth 3") or i_ % 2 == 0]
         return [{"name": "re-entrant on_threat hook (calls m.filter on a probe / on the very input it was told about / "
                          "m.learn_threat while it runs; un-installs itself for the duration): all histories of <= 3 ops (<= 2 "
                          "under a rate limit / with adaptive immunity off) over probes, threshold, forget, learn, time that "
-                         "trigger the hook at least once", "cases": reent},
+                         "trigger the hook at least once" + (" (quick tier: every third history of depth 3)" if tier == "quick" else ""),
+                 "cases": reent},
                 {"name": "the input wrapped differently: 16 envelopes (source / signal type / strength / metadata flags / "
                          "trace id / timestamp) x Signal object new / sent again / edited in place, rules changed between "
                          "the calls", "cases": wraps},
                 {"name": "the public lists m.signatures / im.patterns edited directly (append / insert / pop / del / clear / "
                          "re-assignment, not through add_signature / add_pattern), a second gate of the class alive: all "
-                         "histories of <= 3 ops with at least one edit and one probe", "cases": edits},
+                         "histories of <= 3 ops with at least one edit and one probe" + (" (quick tier: every second history of depth 3)" if tier == "quick" else ""),
+                 "cases": edits},
                 {"name": "long histories on one membrane: 5000+ further blocked inputs between a block and the relaxation of "
                          "the rules (replay memory), 5000+ calls inside one rate window under a limit of 4500+, 1500+ learned "
                          "patterns, a long run repeated after the rules were relaxed, 1200+ checks in a row on one innate filter; clock gaps of an hour .. a year between "
